@@ -1,4 +1,64 @@
 import GnoVerif.Model.C38
 import GnoVerif.Model.C38Search
+import GnoVerif.Proofs.C38Frame
+/-!
+# C38 — the consensus write-ahead log preserves what was written
+
+Model: `Model/C38.lean` (line format, `WALWriter`, `WALReader.ReadMessage`),
+`Model/C38Meta.lean` (amino-JSON parsing of a `#…` line), `Model/C38Search.lean`
+(autofile group, `SearchForHeight`), over `Base/Crc32c.lean`, `Base/Base64.lean`.
+All of them are compared with the real code on every run (tie = correspondence).
+
+A payload is the amino *sized* encoding of a `TimedWALMessage`; its inside is
+opaque (`Cfg.bodyOK` stands for "amino.UnmarshalSized succeeds").
+-/
 namespace GnoVerif.C38
+open GnoVerif
+
+/-! ## Clause 1 — reading returns exactly what was written, in order -/
+
+/-- Reading a log made of well-formed items returns exactly those items, in
+order, and then end-of-file — for every item list. -/
+theorem read_roundtrip (cfg : Cfg) (items : List Item) (g : ∀ i ∈ items, GoodItem cfg i) :
+    readAll cfg (encodeAll items) = (items, .eof) := by
+  unfold readAll
+  rw [completeLines_encodeAll]
+  exact readLines_map cfg items g
+
+/-- The same through the writer's size check: whatever sequence is offered to a
+writer with a positive limit, what it accepted reads back exactly. -/
+theorem read_roundtrip_writer (cfg : Cfg) (hmax : 0 < cfg.maxSize) (items : List Item)
+    (hmsg : ∀ p, Item.msg p ∈ items → p ≠ [] ∧ cfg.bodyOK p = true)
+    (hmark : ∀ h, Item.mark h ∈ items → InI64 h) :
+    readAll cfg (encodeAll (written cfg.maxSize items)) = (written cfg.maxSize items, .eof) :=
+  read_roundtrip cfg _ (goodItem_written cfg hmax items hmsg hmark)
+
+/-- the hypotheses are satisfiable by a non-trivial log -/
+example : ∀ i ∈ [Item.mark 1, .msg [0], .msg [3, 1, 2, 3], .mark (-7)],
+    GoodItem ⟨1000, sizedOK⟩ i := by
+  intro i hi
+  simp only [List.mem_cons, List.not_mem_nil, or_false] at hi
+  rcases hi with rfl | rfl | rfl | rfl
+  · exact ⟨by decide, by decide⟩
+  · exact ⟨by decide, by decide, by decide⟩
+  · exact ⟨by decide, by decide, by decide⟩
+  · exact ⟨by decide, by decide⟩
+
+/-! ## Clause 2 — a log cut at any byte reads as a prefix, then end-of-file -/
+
+/-- For every cut point `k`, reading the first `k` bytes returns a prefix
+`items.take j` of what was written — never an altered message — followed by
+end-of-file (the torn last line is dropped: `readline` hands it over together
+with io.EOF).  `j` is short of everything exactly when the cut removed bytes. -/
+theorem read_truncated (cfg : Cfg) (items : List Item) (g : ∀ i ∈ items, GoodItem cfg i) (k : Nat) :
+    ∃ j, j ≤ items.length ∧
+      readAll cfg ((encodeAll items).take k) = (items.take j, .eof) ∧
+      (k < (encodeAll items).length → j < items.length) ∧
+      ((encodeAll items).length ≤ k → j = items.length) := by
+  obtain ⟨j, hj, hcl, hlt, hge⟩ := completeLines_take items k
+  refine ⟨j, hj, ?_, hlt, hge⟩
+  unfold readAll
+  rw [hcl]
+  exact readLines_map cfg _ (fun i hi => g i (List.mem_of_mem_take hi))
+
 end GnoVerif.C38
